@@ -31,7 +31,7 @@ def still_fails(sig):
 
 
 def default_strategy():
-    return store_program()
+    return store_program(two_handles=True)
 
 
 def run(res, tier, seed, examples=None, strategy=default_strategy, prefix="store"):
